@@ -244,6 +244,9 @@ class Replay:
         while not path.exists():
             r, st = os.waitpid(pid, os.WNOHANG)
             if r == pid:
+                if os.waitstatus_to_exitcode(st) == 99:      # the child gave up waiting for a grant (slow machine)
+                    self.done[p] = {"status": "timeout"}
+                    return "timeout"
                 self.done[p] = json.load(open(of)) if os.path.exists(of) else {"status": "crashed"}
                 return "exited"
             if time.time() > deadline:
@@ -263,7 +266,7 @@ class Replay:
             a, p = st["a"], st["p"]
             if a == "Submit":
                 env = {"VERIF_GATE_DIR": str(self.scn.gate), "VERIF_GATE_POINTS": ",".join(JOB_POINTS),
-                       "VERIF_GATE_TIMEOUT": str(self.timeout + 10)}
+                       "VERIF_GATE_TIMEOUT": str(4 * self.timeout + 30)}
                 if p in self.kids and p not in self.done:
                     self._drain(p)               # let the previous call of this label return first
                 self.k[p] = 0
